@@ -12,7 +12,8 @@
   `for readBuffer == nil || readBuffer.Len() == 0 { … }`        | fetch  (one iteration per frame / per network event)
   buffered.Peek(2); buffered.Peek(2+len+16)  (fill = 1 net read)| `f.size ≤ s.buf`, otherwise `more` (consumes one event)
   Decrypt(io.LimitReader(buffered, size)): exactly one frame    | frame dropped from todo; `ok = false` → Close, (0, decryption error), sticky
-  Peek fails (not a timeout): Close, return the read error      | Ev.closed → Res.eof, St.closed; closed before → Res.closed true
+  Peek fails (not a timeout): Close, return the read error      | Ev.closed → Res.eof (nothing buffered) / Res.cut (part of a frame
+                                                                |   buffered: io.ErrUnexpectedEOF), St.closed; closed before → Res.closed true
   readBuffer.Read(b)  (bytes.Buffer.Read)                       | bufRead
   net.Conn.Read: data / deadline error (Timeout() = true) / EOF | Ev.seg n / Ev.idle / Ev.closed
 
@@ -41,6 +42,7 @@ deriving DecidableEq, Repr
 inductive Res (α : Type)
   | data (bs : List α)     -- (len bs, nil)
   | eof                    -- (0, io.EOF): the peer closed (the connection is closed in turn), or bytes.Buffer.Read on an empty buffer
+  | cut                    -- (0, io.ErrUnexpectedEOF): the stream ended inside a frame (F65); the connection is closed in turn
   | timeout                -- (0, net.Error with Timeout() = true)
   | closed (again : Bool)  -- `false`: decryption failed, connection closed, (0, the decryption error);
                            -- `true`: the connection was closed before: (0, read error / Close() error)
@@ -86,14 +88,14 @@ def fetchAux {α : Type} (buf flight : Nat) (closed : Bool) (todo : List (Frame 
       | [] => (⟨[], buf, flight, f :: r, closed⟩, [], some .block)
       | .seg n :: net' => fetchAux (buf + min n flight) (flight - min n flight) closed (f :: r) net'
       | .idle :: net' => (⟨[], buf, flight, f :: r, closed⟩, net', some .timeout)
-      | .closed :: net' => (⟨[], buf, flight, f :: r, true⟩, net', some .eof)
+      | .closed :: net' => (⟨[], buf, flight, f :: r, true⟩, net', some (if buf = 0 then .eof else .cut))
   | [] =>
     if closed then (⟨[], buf, flight, [], closed⟩, net, some (.closed true))
     else match net with
       | [] => (⟨[], buf, flight, [], closed⟩, [], some .block)
       | .seg n :: net' => fetchAux (buf + min n flight) (flight - min n flight) closed [] net'
       | .idle :: net' => (⟨[], buf, flight, [], closed⟩, net', some .timeout)
-      | .closed :: net' => (⟨[], buf, flight, [], true⟩, net', some .eof)
+      | .closed :: net' => (⟨[], buf, flight, [], true⟩, net', some (if buf = 0 then .eof else .cut))
 termination_by net.length + todo.length
 decreasing_by all_goals simp_all <;> omega
 
@@ -114,6 +116,11 @@ def run {α : Type} (s : St α) (net : List Ev) : List Nat → St α × List Ev 
     let x := read s net b
     let y := run x.1 x.2.1 bs
     (y.1, y.2.1, x.2.2 :: y.2.2)
+
+/-- what the caller was told before the repair of F65: the end of the stream inside a frame was `io.EOF` too -/
+def Res.unfixed {α : Type} : Res α → Res α
+  | .cut => .eof
+  | r => r
 
 def out {α : Type} : Res α → List α
   | .data bs => bs
